@@ -6,6 +6,8 @@ CONSTANTS
   MaxKe = 2
   MaxCases = 1
   ScDev = 2
+  MaxHist = 4
+  Bursts = {"vn", "vk", "mix"}
   Wide = TRUE
   ExtLenZeroLoops = TRUE
   NonceLenUnchecked = TRUE
